@@ -195,18 +195,20 @@ theorem sobjRaw_declared {rec : SRec} {fuel : Nat} {props : List (String × SPro
     · rename_i skvs _
       split at h
       · simp [Out.cerr] at h
-      · rename_i hany
-        obtain ⟨m0, hm0, h⟩ := Out.bind_eq_ok h
-        intro kv hkv
-        have hk : kv.1 ∈ keysOf m0 := by
-          rw [← forSVS_keys h]; exact List.mem_map.mpr ⟨kv, hkv, rfl⟩
-        obtain ⟨kv0, hkv0, hk0⟩ := List.mem_map.mp hk
-        rw [← hk0]
-        rcases applyDefaultsS_keys fuel props skvs m0 hm0 kv0 hkv0 with h1 | h1
-        · have : ¬ (skvs.any fun kv => !hasKey kv.1 props) = true := hany
-          simp only [List.any_eq_true, not_exists, not_and, Bool.not_eq_true', Bool.not_eq_false] at this
-          exact this kv0 h1
-        · exact (hasKey_iff_mem _ _).mpr h1
+      · split at h
+        · simp [Out.cerr] at h
+        · rename_i hany
+          obtain ⟨m0, hm0, h⟩ := Out.bind_eq_ok h
+          intro kv hkv
+          have hk : kv.1 ∈ keysOf m0 := by
+            rw [← forSVS_keys h]; exact List.mem_map.mpr ⟨kv, hkv, rfl⟩
+          obtain ⟨kv0, hkv0, hk0⟩ := List.mem_map.mp hk
+          rw [← hk0]
+          rcases applyDefaultsS_keys fuel props skvs m0 hm0 kv0 hkv0 with h1 | h1
+          · have : ¬ (skvs.any fun kv => !hasKey kv.1 props) = true := hany
+            simp only [List.any_eq_true, not_exists, not_and, Bool.not_eq_true', Bool.not_eq_false] at this
+            exact this kv0 h1
+          · exact (hasKey_iff_mem _ _).mpr h1
 
 theorem np_toStructGo {st : StructTy} {props : List (String × SProp)}
     (hfield : ∀ kp, kp ∈ props → ∃ f, fieldFor st kp.1 = some f) :
@@ -231,7 +233,7 @@ theorem np_emptyLike {vty src : GoTy} (h : convOK vty src = true) (x : SV) : NP 
   · split <;> simp
 
 theorem np_readField {f : Field} {src : GoTy} (hexp : f.exported = true)
-    (hconv : convOK (elemTy f.ty src) src = true) (eid : Bool) (fv : SV) : NP (readField f src eid fv) := by
+    (hconv : convOK (elemTy f.ty src) src = true) (dis eid : Bool) (fv : SV) : NP (readField f src dis eid fv) := by
   unfold readField
   split
   · simp
@@ -239,8 +241,10 @@ theorem np_readField {f : Field} {src : GoTy} (hexp : f.exported = true)
     split
     · simp
     · split
-      · exact np_bind (np_emptyLike hconv _) (fun _ => by simp)
       · simp
+      · split
+        · exact np_bind (np_emptyLike hconv _) (fun _ => by simp)
+        · simp
 
 theorem np_fromStruct {st : StructTy} (fs : List (String × SV)) : ∀ (ps : List (String × SProp)),
     (∀ kp, kp ∈ ps → propOK st kp = true) → NP (fromStruct st ps fs)
@@ -253,7 +257,7 @@ theorem np_fromStruct {st : StructTy} (fs : List (String × SV)) : ∀ (ps : Lis
     simp only [readProp, hf]
     split
     · simp
-    · exact np_readField hexp hconv _ _
+    · exact np_readField hexp hconv _ _ _
 
 theorem np_unwrapT (ptrT : Bool) (id : String) (s : SV) : NP (unwrapT ptrT id s) := by
   unfold unwrapT
@@ -290,16 +294,18 @@ theorem np_runObjS {rec : SRec} (fuel : Nat) (op : SOp) {st : StructTy} (ptrT : 
         · simp
         · split
           · simp
-          · refine np_bind (np_applyDefaultsS fuel props _ (fun kp hkp => ⟨hwf.defaults kp hkp, hsafe kp hkp⟩)) (fun m0 => ?_)
-            apply np_forSVS
-            intro kv _
-            unfold entryUS
-            split
+          · split
             · simp
-            · rename_i p hp
+            · refine np_bind (np_applyDefaultsS fuel props _ (fun kp hkp => ⟨hwf.defaults kp hkp, hsafe kp hkp⟩)) (fun m0 => ?_)
+              apply np_forSVS
+              intro kv _
+              unfold entryUS
               split
               · simp
-              · exact np_addSeg _ (hrec (kv.1, p) (lookupS_mem hp) _ _)
+              · rename_i p hp
+                split
+                · simp
+                · exact np_addSeg _ (hrec (kv.1, p) (lookupS_mem hp) _ _)
     · exact np_toStructGo hfield m _ (sobjRaw_declared hm)
   · simp only [runObjS]
     refine np_bind (np_unwrapT _ _ _) (fun fs => np_bind (np_fromStruct fs props hwf.prop) (fun raw => ?_))
